@@ -25,9 +25,10 @@ import NV.Driver.MgrX
 import NV.Driver.SvcStart
 import NV.Driver.Wedge
 import NV.Driver.SlowRefresh
+import NV.Driver.E2E
 namespace NV
 
-def steppers : List (List String → Option String) := [stepCore, stepCap, stepRaceSoak, stepListen, stepUpfault, Disc.stepDiscovery, Config.stepConfig, stepCache, stepFwd, stepProf, stepTTL, stepFS, stepClientInfo, stepEcs, LocalDrv.stepLocal, stepManager, stepRouter, HostsRefreshDrv.stepHostsRefresh, MgrX.stepMgrX, stepSvcStart, stepWedge, stepSlowRefresh]
+def steppers : List (List String → Option String) := [stepCore, stepCap, stepRaceSoak, stepListen, stepUpfault, Disc.stepDiscovery, Config.stepConfig, stepCache, stepFwd, stepProf, stepTTL, stepFS, stepClientInfo, stepEcs, LocalDrv.stepLocal, stepManager, stepRouter, HostsRefreshDrv.stepHostsRefresh, MgrX.stepMgrX, stepSvcStart, stepWedge, stepSlowRefresh, stepE2E]
 
 def step (line : String) : String :=
   let toks := line.splitOn " "
